@@ -16,7 +16,8 @@ def intersectTriangle (ray : Ray α) (vertex0 vertex1 vertex2 : V3 α) : Option 
   let h := ray.direction.cross edge2
   let a := edge1.dot h
   let tiny : α := tiny100
-  if a >. -tiny && a <. tiny then none else
+  -- the determinant is compared with its own scale (a ray parallel to the triangle gives rounding noise only)
+  if Num.abs a <=. tiny * edge1.length * h.length then none else
   let f := (1 : α) / a
   let s := ray.origin - vertex0
   let u := f * (s.dot h)
